@@ -8,6 +8,12 @@ OPEN = [
     ("C05", "R-TEXTKEEP", "parser.(*Parser).parseComponentStmt|text token stepped onto (#1 in this function) is not lost",
      "whitespace-only text between a @component(...) use without slots and a following {{ }} block or directive is dropped: `<main>@component(\"~card\") \\n{{ 1 }}</main>` renders `...</div>1</main>` instead of `...</div> \\n1</main>`; parseComponentStmt steps onto the whitespace token to look for a @slot behind it and returns standing on it when there is none, and the caller steps over the last token of every statement. Keeping it needs a second token of lookahead (or carrying the text in the statement): not a small repair",
      "NewTemplate with components/card.tw = `<div>x</div>` and page.tw = `<main>@component(\"~card\") \\n{{ 1 }}</main>`; String(\"page\") == `<main><div>x</div>1</main>` (the ` \\n` is missing)"),
+    ("C08", "R-RECDEPTH", "parser.(*Parser).parseExpression|recursion through parseExpression is bounded by a depth guard",
+     "expressions are parsed by recursive descent without a nesting limit: `{{ ` + 3,000,000 x `(` + `1` + 3,000,000 x `)` + ` }}` (6 MB) ends the process with `fatal error: stack overflow` (goroutine stack exceeds 1000000000-byte limit), which no recover can catch. A nesting limit is a design decision (which limit, which error) and needs a counterpart for the left spine of `1+1+1+...` that the evaluator recurses over: recorded, not repaired",
+     "EvaluateString(\"{{ \" + strings.Repeat(\"(\", 3000000) + \"1\" + strings.Repeat(\")\", 3000000) + \" }}\", nil)"),
+    ("C08", "R-RECDEPTH", "parser.(*Parser).parseStatement|recursion through parseStatement is bounded by a depth guard",
+     "blocks are parsed by recursive descent without a nesting limit: 1,500,000 x `@if(true)` followed by 1,500,000 x `@end` (20 MB) ends the process with `fatal error: stack overflow`. Same design decision as for expressions: recorded, not repaired",
+     "EvaluateString(strings.Repeat(\"@if(true)\", 1500000) + strings.Repeat(\"@end\", 1500000), nil)"),
 ]
 
 # (property, commit, what failed)
@@ -67,6 +73,13 @@ FIXED = [
     ("C02", "a6d2624", "`A@if(x)@else b @end B` rendered the @else body exactly when x was truthy; `@if(x)a@elseif(y)@else b@end` with y truthy rendered b: the @else/@elseif closing an empty body was parsed into that body together with the branch after it"),
     ("C03", "a6d2624", "`@each(i in [1])@else none @end` rendered ` none ` and `@each(i in [])@else none @end` rendered nothing; `@for(...)@end` with an empty body was a parse error"),
     ("C07", "a6c3e33", "`@component(\"~card\")\\n  {{-- c --}}\\n  @slot(\"head\")H@end ... @end` rendered the component with empty slots and the slot bodies as loose text: parseComponentStmt stepped over one whitespace token only, a comment splits the whitespace into two"),
+    ("C09", "b5e45e5", "`{{ \"ab\".repeat(9223372036854775807) }}` and `{{ 1.decimal(\".\", 9223372036854775807) }}` panicked (strings: Repeat output length overflow / makeslice: len out of range): a count taken from the template had no upper bound"),
+    ("C11", "b5e45e5", "repeat and decimal with an oversized count crashed the render instead of returning an error"),
+    ("C13", "11d4371", "`{{ 10\\n\\n/ 0 }}` reported line 1 and `{{ 10\\n\\n+ \"a\" }}` reported line 1: evaluator errors about a binary operator were built from its left operand's node, not from the infix node (operator on line 3)"),
+    ("C18", "6fc55e6", "TemplateDir `/srv/app/templates` was looked up as `srv/app/templates` under the working directory: Configure trimmed \"/\" at both ends of the directory"),
+    ("C07", "4af6242", "`@component(\"~box\")@slot(\"x\")@end@end|tail` rendered without `|tail`: the @end of an empty slot body was taken for the body's last token and the component's @end for the slot's"),
+    ("C06", "4af6242", "`@insert(\"a\")@end` (an empty insert body) was a parse error: expected next token to be '@end'"),
+    ("C08", "6d2917f", "6,000,000 consecutive comments (54 MB) ended the process with a stack overflow: NextToken called itself after every comment"),
     ("C17", "d3e3b1f", "`a@dump(nope)b` rendered successfully with the error object (message and, for files, the path) inside the page: evalDumpStmt never tested the argument with isError"),
 ]
 
